@@ -168,7 +168,8 @@ func (r *SparseReal32Matrix) MdivM(a, b ConstMatrix) Matrix {
     for j := 0; j < m; j++ {
       c1 := a.ConstAt(i, j)
       c2 := b.ConstAt(i, j)
-      if c1.GetFloat32() != float32(0) || c2.GetFloat32() == float32(0) {
+      // 0/x is zero, unless x is zero or NaN
+      if v := c2.GetFloat64(); c1.GetFloat32() != float32(0) || c2.GetFloat32() == float32(0) || v != v {
         r.At(i, j).Div(c1, c2)
       } else {
         if r.ConstAt(i, j).GetFloat32() != 0.0 {
